@@ -336,6 +336,8 @@ def run(ctx):
         ctx.nontrivial.add(repr(brief(rec["hist"])))
     ctx.sample({"behaviour": brief(res.recs[len(res.recs) // 2]["hist"])})
     trs = [record_history(ctx, lc, defaults, i + 1, 3, ctx.rng.randint(30, ctx.pick(80, 200))) for i in range(ctx.pick(12, 80))]
+    # one long history (hundreds of calls on the same three objects) (hundreds of calls on the same objects)
+    trs.append(record_history(ctx, lc, defaults, len(trs) + 1, 3, ctx.pick(500, 2000)))
     validate_histories(ctx, trs, 3)
     ctx.sample({"trace": [{"kind": e["kind"], "obj": e["obj"], "name": e.get("name")} for e in trs[0]["ev"][:8]]})
     pristine_check(ctx)
